@@ -114,9 +114,13 @@ func TestC09_Known_LowHeightRecentWindow(t *testing.T) {
 		h := w.plainNext(rep)
 		err := w.probe(h.ToProto())
 		low := sc.g == 0
-		r.Case(fmt.Sprintf("%+v", sc), true, func() interface{} {
-			return map[string]interface{}{"N": sc.n, "E": sc.E, "genesis": sc.g, "repeat_at": h.Number, "accepted": err == nil}
-		})
+		var sample func() interface{}
+		if sc.n == 9 && sc.advance == 2 { // one defect case and its control are enough as samples
+			sample = func() interface{} {
+				return map[string]interface{}{"N": sc.n, "E": sc.E, "genesis": sc.g, "sealer_of": sc.g, "seals_again_at": h.Number, "accepted": err == nil}
+			}
+		}
+		r.Case(fmt.Sprintf("%+v", sc), true, sample)
 		switch {
 		case err == nil && low:
 			accepted = append(accepted, fmt.Sprintf("N=%d genesis=0: sealer of #%d seals #%d", sc.n, h.Number-w.m.LastSealedWithin(rep, h.Number), h.Number))
